@@ -23,11 +23,15 @@ pub struct Case {
     /// extra source text appended verbatim after the printed program (not seen by the model); used for
     /// nothing that prints
     pub note: String,
+    /// source snippets fed to the same interpreter before the program (a history the program starts
+    /// from: failed runs, abandoned fibers, ...).  The model does not see them: the program must behave
+    /// as on a new interpreter.  Their own results are not compared; none may panic.
+    pub prelude: Vec<String>,
 }
 
 impl Case {
     pub fn new(family: &'static str, prog: Vec<Stmt>) -> Case {
-        Case { family, prog, modules: BTreeMap::new(), opts: CmpOpts { trace: false, kind: false }, also_full_parens: false, note: String::new() }
+        Case { family, prog, modules: BTreeMap::new(), opts: CmpOpts { trace: false, kind: false }, also_full_parens: false, note: String::new(), prelude: Vec::new() }
     }
 }
 
@@ -107,13 +111,22 @@ pub fn module_sources(case: &Case) -> BTreeMap<String, String> {
     m
 }
 
-fn run_alone(runner: &mut Runner, src: &str, modules: &BTreeMap<String, String>, fuel: u64) -> Obs {
-    let mut req = Request { op: "run".into(), snippets: vec![src.to_string()], modules: modules.clone(), fuel: Some(fuel), ..Default::default() };
+fn run_alone(runner: &mut Runner, prelude: &[String], src: &str, modules: &BTreeMap<String, String>, fuel: u64) -> Obs {
+    let mut snippets: Vec<String> = prelude.to_vec();
+    snippets.push(src.to_string());
+    let mut req = Request { op: "run".into(), snippets, modules: modules.clone(), fuel: Some(fuel), ..Default::default() };
     runner.call(&mut req)
 }
 
+/// the result of the program itself: the last snippet of the request; a panic in a snippet of the
+/// history before it is the case's result (nothing may panic)
 fn obs_result(o: &Obs) -> Option<SnippetResult> {
-    o.resp().and_then(|r| r.results.get(0).cloned())
+    o.resp().and_then(|r| {
+        if let Some(p) = r.results.iter().find(|x| matches!(x.outcome, proto::Outcome::Panic { .. })) {
+            return Some(p.clone());
+        }
+        r.results.last().cloned()
+    })
 }
 
 fn outcome_json(r: &SnippetResult) -> J {
@@ -145,8 +158,8 @@ fn judge(
     }
     let Some(mismatch) = mismatch else { return };
     // confirm twice in isolation
-    let a = run_alone(runner, src, modules, hooks.fuel);
-    let b = run_alone(runner, src, modules, hooks.fuel);
+    let a = run_alone(runner, &case.prelude, src, modules, hooks.fuel);
+    let b = run_alone(runner, &case.prelude, src, modules, hooks.fuel);
     stats.executions += 2;
     let (ra, rb) = (obs_result(&a), obs_result(&b));
     let same = match (&ra, &rb) {
@@ -180,7 +193,8 @@ fn judge(
     };
     let artefact = json!({
         "family": case.family,
-        "request": {"op": "run", "snippets": [src], "modules": modules, "fuel": hooks.fuel},
+        "request": {"op": "run", "snippets": case.prelude.iter().cloned().chain(std::iter::once(src.to_string())).collect::<Vec<_>>(), "modules": modules, "fuel": hooks.fuel},
+        "result_index": case.prelude.len(),
         "source": src,
         "modules": modules,
         "expected": {"out": model.out, "outcome": model.outcome},
@@ -231,7 +245,7 @@ fn judge_batch(runner: &mut Runner, hooks: &Hooks, batch: Vec<Case>, check_deter
                 Outcome::Ok => stats.model_ok += 1,
                 Outcome::Uncaught(_) => stats.model_uncaught += 1,
             }
-            let h = fnv64(&format!("{}\u{0}{:?}", src, modules_text));
+            let h = fnv64(&format!("{}\u{0}{:?}\u{0}{:?}", src, modules_text, case.prelude));
             if stats.distinct.insert(h) && (hooks.nontrivial)(case, &model) {
                 stats.nontrivial.insert(h);
             }
@@ -244,7 +258,7 @@ fn judge_batch(runner: &mut Runner, hooks: &Hooks, batch: Vec<Case>, check_deter
         }
     }
     // 2. execute: programs without modules share one run_each request
-    let plain: Vec<usize> = (0..prepared.len()).filter(|&i| prepared[i].modules.is_empty()).collect();
+    let plain: Vec<usize> = (0..prepared.len()).filter(|&i| prepared[i].modules.is_empty() && batch[prepared[i].case_idx].prelude.is_empty()).collect();
     let mut results: Vec<Option<(Option<SnippetResult>, String)>> = (0..prepared.len()).map(|_| None).collect();
     if !plain.is_empty() {
         let mut req = Request {
@@ -266,7 +280,7 @@ fn judge_batch(runner: &mut Runner, hooks: &Hooks, batch: Vec<Case>, check_deter
     }
     for i in 0..prepared.len() {
         if results[i].is_none() {
-            let o = run_alone(runner, &prepared[i].src, &prepared[i].modules, hooks.fuel);
+            let o = run_alone(runner, &batch[prepared[i].case_idx].prelude, &prepared[i].src, &prepared[i].modules, hooks.fuel);
             results[i] = Some((obs_result(&o), o.describe()));
         }
     }
@@ -274,7 +288,7 @@ fn judge_batch(runner: &mut Runner, hooks: &Hooks, batch: Vec<Case>, check_deter
     for (i, p) in prepared.iter().enumerate() {
         let (first, desc) = results[i].take().unwrap();
         if check_determinism {
-            let again = run_alone(runner, &p.src, &p.modules, hooks.fuel);
+            let again = run_alone(runner, &batch[p.case_idx].prelude, &p.src, &p.modules, hooks.fuel);
             let same = match (&first, obs_result(&again)) {
                 (Some(x), Some(y)) => x.out.iter().map(|l| normalise(l)).eq(y.out.iter().map(|l| normalise(l))),
                 (None, None) => true,
